@@ -16,7 +16,7 @@ func runC03(opt *Options) int {
 		Pkgs: []string{"generator", "xtype", "builder"},
 		Kernels: []layera.Kernel{
 			{Name: "K1.dispatch", Pkg: "generator", Harness: "VerifHarness_C03_Dispatch", Unwind: 800, MaxPaths: 3000000, Workers: 16},
-			{Name: "K5.findfield", Pkg: "xtype", Harness: "VerifHarness_C03_FindField", Unwind: 24, MaxPaths: 3000000, Workers: 16},
+			{Name: "K5.findfield", Pkg: "xtype", Harness: "VerifHarness_C03_FindField", Unwind: 24, MaxPaths: 6000000, Workers: 16, SetInts: map[string]int{"VerifC03HistoryFields": map[bool]int{false: 0, true: 2}[opt.Thorough()]}},
 			{Name: "K5.accessible", Pkg: "xtype", Harness: "VerifHarness_C03_Accessible", Unwind: 16},
 			{Name: "K5.structassign", Pkg: "builder", Harness: "VerifHarness_C05_StructAssign", Unwind: 32, MaxPaths: 3000000, Workers: 16},
 		},
